@@ -17,7 +17,7 @@ def make_exact(h):
 
 
 def nominal_step(x):
-    x = np.asarray(x, dtype=float)
+    x = np.asarray(x) if np.iscomplexobj(x) else np.asarray(x, dtype=float)
     return np.maximum(np.log(1.718281828459045 + np.abs(x)), 1.0)
 
 
@@ -80,7 +80,7 @@ def steps(cls, x, method='forward', n=1, order=2, **opts):
     unknown = set(opts) - set(o)
     assert not unknown, unknown
     o.update(opts)
-    x = np.asarray(x, dtype=float)
+    x = np.asarray(x) if np.iscomplexobj(x) else np.asarray(x, dtype=float)
     scale = o['scale'] if o['scale'] is not None else default_scale(method, n, order)
     base = o['base_step']
     if base is None:
